@@ -333,6 +333,11 @@ func (sv *negServer) serve(conn net.Conn) {
 				w("<failure xmlns='" + nsSASL + "'><not-authorized/></failure>")
 			case "other":
 				w("<message xmlns='jabber:client' id='x'/>")
+			case "undecL":
+				// malformed XML of the kind a lenient parser repairs (a child that is never closed); the server goes on
+				// answering as if it had sent <success/>
+				w("<success xmlns='" + nsSASL + "'><br></success>")
+				authDone = true
 			default:
 				if sv.variant%2 == 0 {
 					undecodable()
@@ -382,6 +387,9 @@ func (sv *negServer) serve(conn net.Conn) {
 				}
 			case "other":
 				w("<message xmlns='jabber:client'/>")
+			case "undecL":
+				// an attribute value without quotes (a lenient parser accepts it)
+				w("<resumed xmlns='" + nsSM + "' previd=" + previd + " h='0'/>")
 			default:
 				if sv.variant%2 == 0 {
 					undecodable()
@@ -416,6 +424,13 @@ func (sv *negServer) serve(conn net.Conn) {
 					} else {
 						w("<message xmlns='jabber:client'/>")
 					}
+				case "undecL":
+					// the <jid> element is never closed / an HTML entity: a lenient parser would read a bind result
+					if sv.variant%2 == 0 {
+						w("<iq type='result' id='" + iq.ID + "'><bind xmlns='" + nsBind + "'><jid>" + jid + "</bind></iq>")
+					} else {
+						w("<iq type='result' id='" + iq.ID + "'><bind xmlns='" + nsBind + "'><jid>" + jid + "</jid>&nbsp;</bind></iq>")
+					}
 				default:
 					w("<iq type='result'><bind")
 					return
@@ -429,6 +444,8 @@ func (sv *negServer) serve(conn net.Conn) {
 					w("<iq type='error' id='" + iq.ID + "'><error type='wait'><internal-server-error xmlns='urn:ietf:params:xml:ns:xmpp-stanzas'/></error></iq>")
 				case "noniq":
 					w("<message xmlns='jabber:client' type='result'/>")
+				case "undecL":
+					w("<iq type=result id='" + iq.ID + "'/>")
 				default:
 					w("<iq type='result'")
 					return
@@ -457,6 +474,8 @@ func (sv *negServer) serve(conn net.Conn) {
 				}
 			case "other":
 				w("<message xmlns='jabber:client'/>")
+			case "undecL":
+				w("<enabled xmlns='" + nsSM + "' id='" + id + "' resume=true/>")
 			default:
 				if sv.variant%2 == 0 {
 					undecodable()
@@ -1044,13 +1063,13 @@ var negAlt = map[string][]string{
 	"cert": {"wronghost", "untrusted", "expired"},
 	"o2":   {"false"},
 	"f2":   {"none", "0011"},
-	"auth": {"failure", "other", "undec"},
+	"auth": {"failure", "other", "undec", "undecL"},
 	"o3":   {"false"},
 	"f3":   {"none"},
-	"res":  {"otherid", "noprev", "failed", "other", "undec"},
-	"bind": {"error", "nobind", "noniq", "undec"},
-	"sess": {"error", "noniq", "undec"},
-	"en":   {"enabled0", "failed", "other", "undec"},
+	"res":  {"otherid", "noprev", "failed", "other", "undec", "undecL"},
+	"bind": {"error", "nobind", "noniq", "undec", "undecL"},
+	"sess": {"error", "noniq", "undec", "undecL"},
+	"en":   {"enabled0", "failed", "other", "undec", "undecL"},
 }
 var negSteps = []string{"conn", "f1", "tls", "hs", "cert", "o2", "f2", "auth", "o3", "f3", "res", "bind", "sess", "en"}
 
